@@ -864,6 +864,57 @@ def stub_updates(rng, n):
     return out
 
 
+def fragment_cases(target):
+    """real INET NLRIs and real attribute objects of one decoded UPDATE -> (Coq expression of the model, real json text, kind)"""
+    from struct import unpack
+    from exabgp.bgp.message.update.nlri.inet import INET
+    from exabgp.bgp.message.update.attribute.collection import AttributeCollection
+
+    out = []
+    nlris = [r.nlri for r in getattr(target, 'announces', [])] + list(getattr(target, 'withdraws', []))
+    for nlri in nlris[:3]:
+        if type(nlri) is not INET:
+            continue
+        pi = nlri.path_info
+        if pi._disabled:
+            pathinfo = None
+        else:
+            pathinfo = '.'.join(str(b) for b in pi._packed) if pi._packed else '0.0.0.0'
+        for compact in (False, True):
+            out.append((f'inet_json {cstr(nlri.cidr.prefix())} {copt(pathinfo, cstr)} {"true" if compact else "false"}', nlri.json(compact=compact), 'inet'))
+    attrs = getattr(target, 'attributes', None)
+    if attrs:
+        ac = AttributeCollection()
+        items = []
+        for code in sorted(attrs.keys()):
+            a = attrs[code]
+            name = type(a).__name__
+            if code == 1 and name == 'Origin':
+                items.append(f'AOrigin {cstr(str(a))}')
+            elif code == 3 and name in ('NextHop', 'NextHopSelf'):
+                items.append(f'ANextHop {cstr(str(a))}')
+            elif code == 4 and name == 'MED':
+                items.append(f'AMed {int(str(a))}')
+            elif code == 5 and name == 'LocalPreference':
+                items.append(f'ALocalPref {int(str(a))}')
+            elif code == 6 and name == 'AtomicAggregate':
+                items.append('AAtomic')
+            elif code == 7 and name == 'Aggregator':
+                items.append(f'AAggregator {cstr(str(a))}')
+            elif code == 8 and name == 'Communities':
+                items.append('ACommunity [' + '; '.join('(%d, %d)' % unpack('!HH', bytes(c._packed)) for c in a.communities) + ']')
+            elif code == 9 and name == 'OriginatorID':
+                items.append(f'AOriginator {cstr(str(a))}')
+            elif code == 10 and name == 'ClusterList':
+                items.append('AClusterList [' + '; '.join(cstr(str(c)) for c in a.clusters) + ']')
+            else:
+                continue
+            ac[code] = a
+        if items:
+            out.append(('attr_content [' + '; '.join(items) + ']', ac.json(include_nexthop=True), 'attributes'))
+    return out
+
+
 def coq_peer(neighbor):
     rid = neighbor.session.router_id
     return (f'(mkPeer {cstr(str(neighbor.session.local_address))} {cstr(str(neighbor.session.peer_address))} {int(neighbor.session.local_as)} '
@@ -952,7 +1003,7 @@ def event_cases(impl, rng, hostiles, updates, n_updates, thorough=False):
 # ------------------------------------------------------------------------------- Coq side
 
 HEADER = """From Coq Require Import ZArith Bool List.
-From ExaV Require Import gen.Gen_JsonKeys model.Model_Json proofs.Proofs_Json model.Model_JsonEvent.
+From ExaV Require Import gen.Gen_JsonKeys model.Model_Json proofs.Proofs_Json model.Model_JsonEvent model.Model_JsonFrag.
 Import ListNotations. Open Scope Z_scope.
 Definition upd_ok (c : upd * list Z) : bool := list_eqb (update_message (fst c)) (snd c).
 Definition ev_ok (c : list Z * list Z) : bool := list_eqb (fst c) (snd c).
@@ -1321,7 +1372,7 @@ def check(tier, seed):
             s = mutate_text(rng, s)
         wf_cases.append((s, strict_accepts(s)))
     # JSON._update against Model_JsonEvent.update_message: abstract (stub) messages, then real decoded UPDATEs
-    upd_cases, ev_cases, upd_notes = [], [], collections.Counter()
+    upd_cases, ev_cases, frag_cases, upd_notes = [], [], [], collections.Counter()
     try:
         inners = [impl.encoders['json6'], impl.encoders['json4']._v6]
         for stub in stub_updates(rng, 400 if thorough else 70):
@@ -1346,10 +1397,15 @@ def check(tier, seed):
             enc = rng.choice(inners)
             upd_cases.append((abstract_update(enc, target), enc._update(target)['message']))
             upd_notes['decoded'] += 1
+            frag_cases.extend(fragment_cases(target))
         ev_cases = event_cases(impl, rng, hostiles, pool[::-1], 60 if thorough else 8, thorough)
         run.obligation('abstraction of UPDATEs and events for the model ran', True)
     except Exception:
         run.obligation('abstraction of UPDATEs and events for the model ran', False, traceback.format_exc()[-2000:])
+    seen_frag = set()
+    frag_cases = [c for c in frag_cases if not ((c[0], c[1]) in seen_frag or seen_frag.add((c[0], c[1])))]
+    n_ev = len(ev_cases)
+    ev_cases = ev_cases + frag_cases
     coq = eval_coq(esc_cases, one_cases, obj_cases, wf_cases, 'c13', upd_cases, [(e, r) for e, r, _ in ev_cases])
     t_coq = time.time() - t0
     run.obligation('Coq evaluation of the model (vm_compute) ran on every shard', coq['ran'], '\n'.join(coq['logs'])[-2000:])
@@ -1373,13 +1429,17 @@ def check(tier, seed):
             run.fail_case('model-disagrees:update_message', 'Model_JsonEvent.update_message differs from JSON._update on the same (abstracted) message',
                           {'abstract': upd_cases[i][0], 'impl': upd_cases[i][1][:1500]})
         for i in coq['ev_bad'][:5]:
-            run.fail_case(f'model-disagrees:event:{ev_cases[i][2]}', 'the model of the event line (envelope + content) differs from the encoder output',
+            run.fail_case(f'model-disagrees:event:{ev_cases[i][2]}', 'the model of the event line / json() body differs from the real output',
                           {'model_expr': ev_cases[i][0][:1500], 'impl': ev_cases[i][1][:1500]})
         run.obligation(f'correspondence: update_message = JSON._update on {len(upd_cases)} messages ({dict(upd_notes)}; grouping by family / next hop, commas, '
                        f'attributes-only, empty, EOR; v6 and v4 fragments)', not coq['upd_bad'], f'{len(coq["upd_bad"])} differ')
-        kinds = collections.Counter(k for _, _, k in ev_cases)
-        run.obligation(f'correspondence: modelled event lines (_header/_neighbor/_kv + event kinds) = encoder output on {len(ev_cases)} events {dict(kinds)}',
-                       not coq['ev_bad'], f'{len(coq["ev_bad"])} differ')
+        kinds = collections.Counter(k for _, _, k in ev_cases[:n_ev])
+        run.obligation(f'correspondence: modelled event lines (_header/_neighbor/_kv + event kinds) = encoder output on {n_ev} events {dict(kinds)}',
+                       not [i for i in coq['ev_bad'] if i < n_ev], f'{len([i for i in coq["ev_bad"] if i < n_ev])} differ')
+        fkinds = collections.Counter(k for _, _, k in ev_cases[n_ev:])
+        run.obligation(f'correspondence: modelled json() bodies (INET NLRI; attribute object of the nine simple attributes) = the real classes on '
+                       f'{len(ev_cases) - n_ev} distinct objects {dict(fkinds)}',
+                       not [i for i in coq['ev_bad'] if i >= n_ev], f'{len([i for i in coq["ev_bad"] if i >= n_ev])} differ')
         keys_ok, same_pinned, kept_empty, latin1_ok = coq['table']
         run.coverage['regenerated_tables'] = {'attr_keys_ok': bool(keys_ok), 'attribute_key_table_is_the_pinned_one': bool(same_pinned),
                                               'oneline_keeps_no_latin1': bool(kept_empty), 'latin1_ascii_encodable_after_oneline': bool(latin1_ok)}
